@@ -36,6 +36,7 @@ type Obj struct {
 	input   bool   // harness input buffer (write monitor)
 	frozen  bool   // string backing etc.
 	roStr   string
+	fltTag  *Term // the string is strconv.FormatFloat(fltTag,'f',-1,64) (opaque carrier)
 }
 
 type Pointer struct {
